@@ -15,15 +15,32 @@ import (
 	"pgregory.net/rapid"
 )
 
-// c10VerdictCase: a push whose tip commit changes Path under a policy with one file rule.
+// c10VerdictCase: a push of 1-3 commits to main under a policy with file rules.
+// Every commit is signed by its own key and changes the odd path and / or two
+// plain paths, one sorting before every other name ("!low") and one owned by a
+// second principal ("zzz-owned").
 type c10VerdictCase struct {
-	Path     string `json:"path"`      // the odd path the tip commit touches
-	Change   string `json:"change"`    // add | modify | delete
-	Pattern  string `json:"pattern"`   // file rule pattern without the "file:" prefix
-	CommitBy int    `json:"commit_by"` // key signing the tip commit (-1 unsigned)
+	Path     string `json:"path"`      // the odd path
+	Change   string `json:"change"`    // add | modify | delete (what the first commit touching it does)
+	Pattern  string `json:"pattern"`   // file rule pattern (without the "file:" prefix) for key c10GoodKey
+	CommitBy int    `json:"commit_by"` // legacy single-commit form (used when Commits is empty)
+	// multi-commit form
+	Commits    []c10VCommit `json:"commits,omitempty"`
+	SecondRule bool         `json:"second_rule,omitempty"` // file:zzz-owned -> key 2
+	Global     string       `json:"global,omitempty"`      // "" | "threshold-other-ref" | "force-other-ref": a global rule that does not concern main
 }
 
-const c10GoodKey = 1
+type c10VCommit struct {
+	By    int      `json:"by"`    // signing key (-1 unsigned)
+	Paths []string `json:"paths"` // subset of "odd", "low", "owned"
+}
+
+const (
+	c10GoodKey  = 1
+	c10OwnerKey = 2
+	c10LowPath  = "!low"
+	c10Owned    = "zzz-owned"
+)
 
 func genC10Verdict(rt *rapid.T) c10VerdictCase {
 	c := c10VerdictCase{}
@@ -32,6 +49,9 @@ func genC10Verdict(rt *rapid.T) c10VerdictCase {
 	c.Path = name
 	if dir != "" {
 		c.Path = dir + "/" + name
+	}
+	if c.Path == c10LowPath || c.Path == c10Owned {
+		c.Path = "x" + c.Path
 	}
 	c.Change = rapid.SampledFrom([]string{"add", "modify", "delete"}).Draw(rt, "change")
 	kinds := []string{"catch-all", "other"}
@@ -51,12 +71,30 @@ func genC10Verdict(rt *rapid.T) c10VerdictCase {
 	default:
 		c.Pattern = "elsewhere/*"
 	}
-	c.CommitBy = rapid.SampledFrom([]int{c10GoodKey, c10GoodKey, wgUnknownKey, 2, -1}).Draw(rt, "commitby")
+	c.SecondRule = rapid.Bool().Draw(rt, "secondrule")
+	c.Global = rapid.SampledFrom([]string{"", "", "threshold-other-ref", "force-other-ref"}).Draw(rt, "global")
+	n := rapid.IntRange(1, 3).Draw(rt, "ncommits")
+	for i := 0; i < n; i++ {
+		vc := c10VCommit{By: rapid.SampledFrom([]int{c10GoodKey, c10GoodKey, c10OwnerKey, wgUnknownKey, -1}).Draw(rt, "by")}
+		mask := rapid.IntRange(1, 7).Draw(rt, "paths")
+		if i == 0 {
+			mask |= 1 // the push always touches the odd path
+		}
+		for bit, nm := range []string{"odd", "low", "owned"} {
+			if mask&(1<<bit) != 0 {
+				vc.Paths = append(vc.Paths, nm)
+			}
+		}
+		c.Commits = append(c.Commits, vc)
+	}
 	return c
 }
 
 func runC10Verdict(t *testing.T, s *kit.Session, c c10VerdictCase) *kit.Failure {
 	rsl.VerifResetCache()
+	if len(c.Commits) == 0 { // legacy replay files
+		c.Commits = []c10VCommit{{By: c.CommitBy, Paths: []string{"odd"}}}
+	}
 	dir, err := os.MkdirTemp("", "c10v-")
 	if err != nil {
 		panic(err)
@@ -64,71 +102,123 @@ func runC10Verdict(t *testing.T, s *kit.Session, c c10VerdictCase) *kit.Failure 
 	defer os.RemoveAll(dir)
 	g := kit.NewGitStore(t, dir, true)
 	root := keyPrin(wgRootKey)
+	type frule struct {
+		pattern string
+		key     int
+	}
+	rules := []frule{{c.Pattern, c10GoodKey}}
 	spec := &kit.PolicySpec{
 		RootPrincipals: []kit.PrincipalSpec{root}, RootThreshold: 1, TargetsKeys: []kit.PrincipalSpec{root}, TargetsThreshold: 1, RootSigners: []int{wgRootKey},
-		Targets: &kit.FileSpec{Signers: []int{wgRootKey}, Principals: []kit.PrincipalSpec{keyPrin(c10GoodKey)},
+		Targets: &kit.FileSpec{Signers: []int{wgRootKey}, Principals: []kit.PrincipalSpec{keyPrin(c10GoodKey), keyPrin(c10OwnerKey)},
 			Rules: []kit.RuleSpec{{Name: "protect-files", Patterns: []string{"file:" + c.Pattern}, Principals: []int{0}, Threshold: 1}}},
+	}
+	if c.SecondRule {
+		spec.Targets.Rules = append(spec.Targets.Rules, kit.RuleSpec{Name: "owned-file", Patterns: []string{"file:" + c10Owned}, Principals: []int{1}, Threshold: 1})
+		rules = append(rules, frule{c10Owned, c10OwnerKey})
+	}
+	switch c.Global {
+	case "threshold-other-ref":
+		spec.Globals = []kit.GlobalSpec{{Name: "elsewhere", Kind: "threshold", Patterns: []string{"git:refs/heads/elsewhere"}, Threshold: 2}}
+	case "force-other-ref":
+		spec.Globals = []kit.GlobalSpec{{Name: "elsewhere", Kind: "block-force-pushes", Patterns: []string{"git:refs/heads/elsewhere"}}}
 	}
 	if err := kit.StageAndApply(g, spec); err != nil {
 		return &kit.Failure{Cause: "harness", Msg: "policy: " + err.Error()}
 	}
 	blobCache := map[int]string{}
-	base := map[string]int{"README": 1}
+	// (the plain paths are first added by the push itself: the base commit, signed by
+	// the good key, must be valid whatever the rules are)
+	files := map[string]int{"README": 1}
 	if c.Change != "add" {
-		base[c.Path] = 1
+		files[c.Path] = 1
 	}
-	tip := copyFiles(base)
-	switch c.Change {
-	case "add", "modify":
-		tip[c.Path] = 2
-	case "delete":
-		delete(tip, c.Path)
-	}
-	baseTree, err := c10WriteTree(g, base, blobCache)
+	harness := func(err error) *kit.Failure { return &kit.Failure{Cause: "harness", Msg: err.Error()} }
+	baseTree, err := c10WriteTree(g, files, blobCache)
 	if err != nil {
-		return &kit.Failure{Cause: "harness", Msg: err.Error()}
+		return harness(err)
 	}
-	tipTree, err := c10WriteTree(g, tip, blobCache)
+	// the base commit is signed by the good key, the only one the rule for the odd path trusts
+	parent, err := g.RawCommit(kit.HashOf(baseTree), nil, "base\n", kit.Key(c10GoodKey))
 	if err != nil {
-		return &kit.Failure{Cause: "harness", Msg: err.Error()}
+		return harness(err)
 	}
-	// the base commit is made by the authorised key, so it is valid whatever the pattern
-	baseCommit, err := g.RawCommit(kit.HashOf(baseTree), nil, "base\n", kit.Key(c10GoodKey))
-	if err != nil {
-		return &kit.Failure{Cause: "harness", Msg: err.Error()}
+	if err := g.SetReference("refs/heads/main", parent); err != nil {
+		return harness(err)
 	}
-	if err := g.SetReference("refs/heads/main", baseCommit); err != nil {
-		return &kit.Failure{Cause: "harness", Msg: err.Error()}
+	if err := rsl.NewReferenceEntry("refs/heads/main", parent).Commit(g, false); err != nil {
+		return harness(err)
 	}
-	if err := rsl.NewReferenceEntry("refs/heads/main", baseCommit).Commit(g, false); err != nil {
-		return &kit.Failure{Cause: "harness", Msg: err.Error()}
+	// the expected verdict: every changed path of every new commit is unprotected
+	// or its commit is signed by a principal of some rule matching the path
+	wantOK, why := true, ""
+	oddTouched := false
+	anyProtected := false
+	for ci, vc := range c.Commits {
+		for _, nm := range vc.Paths {
+			path := map[string]string{"odd": c.Path, "low": c10LowPath, "owned": c10Owned}[nm]
+			if nm == "odd" && !oddTouched {
+				oddTouched = true
+				if c.Change == "delete" {
+					delete(files, path)
+				} else {
+					files[path] = 10 + ci
+				}
+			} else {
+				files[path] = 10 + ci // (re)written with new content
+			}
+			matched, authorised := false, false
+			for _, r := range rules {
+				if fnmatch.Match("file:"+r.pattern, "file:"+path, 0) {
+					matched = true
+					if vc.By == r.key {
+						authorised = true
+					}
+				}
+			}
+			if matched {
+				anyProtected = true
+			}
+			if matched && !authorised && wantOK {
+				wantOK = false
+				why = fmt.Sprintf("commit %d (signed by key %d) changes protected path %q", ci, vc.By, path)
+			}
+		}
+		tree, err := c10WriteTree(g, files, blobCache)
+		if err != nil {
+			return harness(err)
+		}
+		var signer *kit.TestKey
+		if vc.By >= 0 {
+			signer = kit.Key(vc.By)
+		}
+		commit, err := g.RawCommit(kit.HashOf(tree), []githash.Hash{parent}, fmt.Sprintf("change %d\n", ci), signer)
+		if err != nil {
+			return harness(err)
+		}
+		parent = commit
 	}
-	var signer *kit.TestKey
-	if c.CommitBy >= 0 {
-		signer = kit.Key(c.CommitBy)
+	if err := g.SetReference("refs/heads/main", parent); err != nil {
+		return harness(err)
 	}
-	tipCommit, err := g.RawCommit(kit.HashOf(tipTree), []githash.Hash{baseCommit}, "change\n", signer)
-	if err != nil {
-		return &kit.Failure{Cause: "harness", Msg: err.Error()}
+	if err := rsl.NewReferenceEntry("refs/heads/main", parent).Commit(g, false); err != nil {
+		return harness(err)
 	}
-	if err := g.SetReference("refs/heads/main", tipCommit); err != nil {
-		return &kit.Failure{Cause: "harness", Msg: err.Error()}
-	}
-	if err := rsl.NewReferenceEntry("refs/heads/main", tipCommit).Commit(g, false); err != nil {
-		return &kit.Failure{Cause: "harness", Msg: err.Error()}
-	}
-	protected := fnmatch.Match("file:"+c.Pattern, "file:"+c.Path, 0)
 	got := verifyFull(g, "refs/heads/main")
-	wantOK := !protected || c.CommitBy == c10GoodKey
 	if wantOK && got.Err != nil {
-		return &kit.Failure{Cause: "false-reject", Msg: fmt.Sprintf("%s of %q (pattern file:%s, protected=%v) by key %d should verify but failed: %v", c.Change, c.Path, c.Pattern, protected, c.CommitBy, got.Err)}
+		return &kit.Failure{Cause: "false-reject", Msg: fmt.Sprintf("push %+v (rules %v, odd path %q %s) should verify but failed: %v", c.Commits, rules, c.Path, c.Change, got.Err)}
 	}
 	if !wantOK && got.Err == nil {
-		return &kit.Failure{Cause: "protected-path-not-enforced", Msg: fmt.Sprintf("%s of protected path %q (pattern file:%s) by key %d verified although only key %d is authorised for it", c.Change, c.Path, c.Pattern, c.CommitBy, c10GoodKey)}
+		return &kit.Failure{Cause: "protected-path-not-enforced", Msg: fmt.Sprintf("push %+v verified although %s and the rules are %v (global rule: %q)", c.Commits, why, rules, c.Global)}
 	}
-	classes := []string{"verdict_case", "change_" + c.Change}
-	if protected {
+	classes := []string{"verdict_case", "change_" + c.Change, fmt.Sprintf("verdict_commits_%d", len(c.Commits))}
+	if anyProtected {
 		classes = append(classes, "protected")
+	}
+	if !wantOK {
+		classes = append(classes, "verdict_must_fail")
+	}
+	if c.Global != "" {
+		classes = append(classes, "verdict_with_unrelated_global_rule")
 	}
 	s.Observe(c, oddPath(c.Path), classes...)
 	return nil
